@@ -307,12 +307,16 @@ var supporting = map[string]struct {
 		"an unchanged input set is only skipped if it hashes to the recorded digest again: the digest must not depend on arrival order (HS1) or on anything but path and content (HS2, HS5), the expansion root and pattern must be the same every time (GL3), and a plain file must not be taken for a pattern that matches nothing (TK5)."},
 	"C05": {[]func(*Ctx) *rule{ruleTK5},
 		"which strings are globs at all (TK5)."},
+	"C08": {[]func(*Ctx) *rule{ruleTL3, ruleTL4},
+		"'every syntax error cites a line number between 1 and the number of lines' needs the lexer's line counter to move on newlines only (TL3) and the scan position not to jump over text without counting (TL4)."},
 	"C09": {[]func(*Ctx) *rule{ruleCP1, ruleCP10},
 		"a failed task is 'not treated as up to date by later runs' because its digest is not recorded (CP8), the old one is only restored (CP10), and 'skipped' requires digest equality (CP1)."},
 	"C12": {[]func(*Ctx) *rule{ruleGL1, ruleGL3, ruleTK5, ruleAB2, ruleFD4},
 		"'files matching output globs' are those the shared expansion finds (GL1, GL3, TK5); 'the spokfile' and 'the directory containing it' are what discovery settled (AB2, FD4)."},
-	"C14": {[]func(*Ctx) *rule{ruleCP1, ruleCP3("CP3L"), ruleCP6, ruleGL4},
-		"'a forced run does not damage the cache' is C01 after a forced run: the digest a forced run records must be the one of the inputs its commands ran on (CP1, CP3L), computed over all inputs, globs expanded (CP6, GL4)."},
+	"C15": {[]func(*Ctx) *rule{ruleFX2, ruleST9},
+		"what --fmt leaves in the file is the formatted text and nothing else (FX2: one write of Tree.String() that replaces the file); a docstring or comment used as a printf format is garbled wherever it contains a % (ST9)."},
+	"C14": {[]func(*Ctx) *rule{ruleCP1, ruleCP3("CP3L"), ruleCP6, ruleGL4, ruleCP12},
+		"'a forced run does not damage the cache' is C01 after a forced run: the digest a forced run records must be the one of the inputs its commands ran on (CP1, CP3L), computed over all inputs, globs expanded (CP6, GL4), and the persisted file must be exactly that map (CP12)."},
 	"C19": {[]func(*Ctx) *rule{ruleAB1, ruleAB2, ruleFD4, ruleGR5, ruleEN4},
 		"'its cache directory next to the spokfile' is the project root handed to file.New (AB1, AB2, FD4); '--fmt rewrites only when the spokfile loads' needs file.New to fail on what does not load (GR5 duplicate tasks, EN4 failing builtins)."},
 	"C20": {[]func(*Ctx) *rule{ruleGR8, ruleEN3, ruleTK4},
